@@ -17,8 +17,9 @@ SeqSort = z3.DeclareSort('SeqId')
 class Sym:
     concrete = False
     def __init__(self):
-        self.facts = []            # valid side facts about applications of interpreted-by-axiom symbols (round, trunc, pi)
+        self.facts = []            # GLOBAL valid side facts (pi, REACH closure instances, sequence bounds)
         self._factkeys = set()
+        self.pending = []          # PATH-LOCAL valid facts about arithmetic applications (round, trunc, mul, pow); flushed into the path by the executor
         self.ex = None
         self._fn = {}
         self.CRf = z3.Function('CR', I, I, I, I, I, I, R)
@@ -30,6 +31,9 @@ class Sym:
     def fact(self, key, f):
         if key not in self._factkeys:
             self._factkeys.add(key); self.facts.append(f)
+
+    def lfact(self, key, f):
+        self.pending.append(f)
 
     def fn(self, name, sorts, rng):
         k = (name, tuple(str(s) for s in sorts), str(rng))
@@ -44,8 +48,20 @@ class Sym:
         return f(*args) if args else f
 
     def opaque_real(self, name, args, commutative=False):
-        if commutative: args = sorted(args, key=lambda t: t.sexpr())
-        return self.app('f_' + name, list(args), R)
+        r = self.app('f_' + name, list(args), R)
+        if commutative and len(args) == 2 and not args[0].eq(args[1]):
+            self.lfact(None, r == self.app('f_' + name, [args[1], args[0]], R))
+        # valid facts about the real operation that the symbol stands for (kept minimal: absorbing / neutral elements, signs)
+        if name == 'mul' and len(args) == 2:
+            x, y = args
+            self.lfact(None, z3.And(z3.Implies(z3.Or(x == 0, y == 0), r == 0), z3.Implies(x == 1, r == y), z3.Implies(y == 1, r == x),
+                                       z3.Implies(z3.And(x >= 0, y >= 0), r >= 0), z3.Implies(z3.And(x <= 0, y <= 0), r >= 0),
+                                       z3.Implies(z3.And(x >= 0, y <= 0), r <= 0), z3.Implies(z3.And(x <= 0, y >= 0), r <= 0)))
+        if name == 'pow' and len(args) == 2:
+            x, y = args
+            self.lfact(None, z3.And(z3.Implies(x == 1, r == 1), z3.Implies(z3.And(x == 0, y > 0), r == 0), z3.Implies(x >= 0, r >= 0),
+                                       z3.Implies(z3.And(x >= 0, x <= 1, y >= 0), z3.And(r >= 0, r <= 1))))
+        return r
 
     def opaque_int(self, name, args):
         return self.app('i_' + name, list(args), I)
@@ -55,7 +71,7 @@ class Sym:
         return z3.Real(name)
 
     def nonneg_int(self, name):
-        t = fresh(I, name); self.fact(str(t), t >= 0); return t
+        t = fresh(I, name); self.lfact(None, t >= 0); return t
 
     def pure_value(self, fname, argvals, shape, p=None):
         """a value of `shape` whose leaves are function symbols applied to the leaves of the arguments"""
@@ -135,6 +151,11 @@ class Sym:
         if isinstance(x, VBool): return z3.If(x.t, 1, 0)
         if isinstance(x, int): return z3.IntVal(x)
         return x
+    def in_0_255(self, v):
+        """3-tuple of numbers (int or float) each in [0, 255]"""
+        v = self.the(v)
+        if not (isinstance(v, VTuple) and len(v.xs) == 3 and all(is_num(x) for x in v.xs)): return self.false
+        return z3.And([z3.And(num(x) >= 0, num(x) <= 255) for x in v.xs])
     def opt_rgb8(self, v):
         """None or rgb8"""
         if isinstance(v, VNone): return self.true
@@ -216,7 +237,7 @@ class Sym:
         return self.app('NONEMPTY', [v.code], B)
     def str_eq(self, a, b): return a.code == b.code
     def str_len(self, v):
-        t = self.app('LEN', [v.code], I); self.fact(f'len{t}', t >= 0); return t
+        t = self.app('LEN', [v.code], I); self.lfact(None, t >= 0); return t
     def in_table(self, a, g): return self.app('IN_' + g.name.split(':')[1], [a.code], B)
     def table_lookup(self, g, a): return VStr(code=self.app('LOOKUP_' + g.name.split(':')[1], [a.code], I))
     def str_contains(self, hay, needle): return self.app('CONTAINS', [hay.code, needle.code], B)
@@ -261,11 +282,11 @@ class Sym:
     # ---------------------------------------------------------------- rounding
     def round_half_even(self, t):
         r = self.app('ROUND', [t], I)
-        self.fact(f'round{r}', z3.And(z3.ToReal(r) - t <= z3.RealVal('1/2'), t - z3.ToReal(r) <= z3.RealVal('1/2')))
+        self.lfact(None, z3.And(z3.ToReal(r) - t <= z3.RealVal('1/2'), t - z3.ToReal(r) <= z3.RealVal('1/2')))
         return r
     def trunc(self, t):
         r = self.app('TRUNC', [t], I)
-        self.fact(f'trunc{r}', z3.If(t >= 0, z3.And(z3.ToReal(r) <= t, t < z3.ToReal(r) + 1), z3.And(z3.ToReal(r) >= t, t > z3.ToReal(r) - 1)))
+        self.lfact(None, z3.If(t >= 0, z3.And(z3.ToReal(r) <= t, t < z3.ToReal(r) + 1), z3.And(z3.ToReal(r) >= t, t > z3.ToReal(r) - 1)))
         return r
 
     def denotes(self, v):
